@@ -81,6 +81,8 @@ THEOREMS = [
     "IrVerif.Sort.C12_passF_refines_passW",
     "IrVerif.Sort.C12_pass_success_sorted",
     "IrVerif.Sort.C12_passF_success_sorted",
+    "IrVerif.Sort.C12_state_pass_atomic_D392",
+    "IrVerif.Sort.C12_passF_refines_passW_D392",
 ]
 ASSUMPTIONS = [
     "Function.sort is `self._graph.sort()`: it is modelled as the same sortEffect on the function's graph; "
@@ -113,6 +115,14 @@ ASSUMPTIONS = [
     "container of an earlier graph-like's tree; decidable, evaluated per pass: full_hyp_pass_disj); the tree of a graph-like is "
     "the one its own sort read (that earlier sorts of disjoint trees do not change what a later traversal reads is not proved "
     "separately)",
+    "finding D392 (known): on a CYCLE the restore loop of the pass re-extends never-sorted graph-likes (names assigned / "
+    "AttributeError instead of ValueError). The pass is transcribed twice: as it is (passF / passW) and as it is after "
+    "proposed_fixes/D392.diff (passFD / passWD: only graph-likes whose order changed are re-extended, tested when the loop gets "
+    "to them); C12_state_pass_atomic_D392 and C12_passF_refines_passW_D392 are the counterparts of the theorems about the "
+    "current loop; the harness probes the real pass once (d392_fixed) and has the driver replay every traced pass on the "
+    "matching transcription, so the check follows the fix without a change of the model. That the fixed loop can neither be "
+    "rejected nor assign a name (restored graph-likes were sorted successfully, so all their nodes passed the checks and are "
+    "named) is not proved: it is what the oracle observes (the D392 signatures stop firing)",
     "heapq: the binary heap (heapify / heappush / heappop with _siftup / _siftdown, CPython's heapq.py; the C accelerator is the "
     "same algorithm) is transcribed in Model/Heap.lean and compared with the real heapq step by step. Round 5: 'heapq is an "
     "extract-min priority queue' is no longer trusted: C12_heap_invariant proves that heapify establishes and heappush / heappop "
@@ -1347,6 +1357,47 @@ def name_state(b: Built):
     return st
 
 
+_D392 = None
+
+
+def d392_fixed() -> bool:
+    """does the pass under test restore only the graph-likes whose order changed (proposed fix D392)?  Probed once on
+    the real code: main graph out of order, a cyclic function, then an ordered function with an unnamed node - fixed iff
+    the main graph is put back AND the never-sorted function keeps its unnamed node.  The driver runs the matching
+    transcription (`passFD` / `passWD` when fixed, `passF` / `passW` otherwise; C12_state_pass_atomic[_D392],
+    C12_passF_refines_passW[_D392]), so applying the fix needs no change of the model.  Any surprise -> False."""
+    global _D392
+    if _D392 is None:
+        try:
+            import onnx_ir as ir
+            from onnx_ir.passes.common.topological_sort import TopologicalSortPass
+
+            def chain(tag):
+                x = ir.Value(name=f"x{tag}")
+                a = ir.Node("", "A", [x], name=f"a{tag}")
+                b_ = ir.Node("", "B", [a.outputs[0]], name=f"b{tag}")
+                return x, a, b_
+
+            x0, a0, b0 = chain(0)
+            main = ir.Graph([x0], [b0.outputs[0]], nodes=[b0, a0], name="g0")
+            x1, a1, b1 = chain(1)
+            a1.replace_input_with(0, b1.outputs[0])
+            g1 = ir.Graph([x1], [b1.outputs[0]], nodes=[a1, b1], name="g1")
+            x2, a2, b2 = chain(2)
+            g2 = ir.Graph([x2], [b2.outputs[0]], nodes=[a2, b2], name="g2")
+            a2.name = None
+            model = ir.Model(main, ir_version=10, functions=[ir.Function("d", "f1", graph=g1, attributes=[]),
+                                                              ir.Function("d", "f2", graph=g2, attributes=[])])
+            try:
+                TopologicalSortPass()(model)
+                _D392 = False
+            except ValueError:
+                _D392 = a2.name is None and [n.name for n in main] == ["b0", "a0"]
+        except Exception:  # noqa: BLE001
+            _D392 = False
+    return _D392
+
+
 def only_named(nb, na):
     """the difference between two name states is 'names were assigned': node.graph unchanged, every node / value / tensor
     name that existed is unchanged (name authorities may have advanced)"""
@@ -2044,7 +2095,9 @@ def check_full(ctx: Ctx, srecs: list) -> None:
     of every node output and of its backing tensor, counters and name sets of every name authority must coincide.
     Hypotheses evaluated and published: `Consistent` (C12_full_refines_state), `passHypB` (C12_state_pass_atomic)."""
     good = [r for r in srecs if not r["state"]["bad"]]
-    outs = lean_batch_parallel([r["state"]["req"] for r in good])
+    fixed = d392_fixed()
+    ctx.extra["d392_probe"] = "restore-only-changed (passFD/passWD)" if fixed else "restore-all (passF/passW)"
+    outs = lean_batch_parallel([dict(r["state"]["req"], d392=fixed) for r in good])
     for r, o in zip(good, outs):
         obs, sorts = r["state"]["obs"], o.get("sorts")
         ctx.count("full_histories")
@@ -2265,6 +2318,9 @@ def run(ctx: Ctx) -> None:
         gc.collect()
     heap_cases(ctx)
     relink_cases(ctx)
+    if not ctx.dist.get("heap_trace=compared"):
+        ctx.notes.append("the heapq calls of Graph.sort were NOT observed on this run (onnx_ir._core has no `heapq` module global or never "
+                         "calls heapq.heapify): kahnHeap is tied to the code by the sort results only")
 
 
 def replay(ctx: Ctx, obj: dict) -> None:
